@@ -539,6 +539,8 @@ def benign_changes():
             meta = json.load(open(mp))
         except ValueError:
             continue
+        if meta.get("open_false_alarm"):
+            continue      # a false alarm found and not yet corrected (DESIGN.md, round 8): recorded, not replayed
         if meta.get("suite_ok") and meta.get("reviewed_benign", True):
             out.append((d, pp, set(meta.get("accepted_undecided", []))))
     return out
